@@ -4,6 +4,7 @@
    Safe strings and protected tables come from C15/Gen.v, regenerated from /repo on every run;
    urllib.parse.quote / unquote are modelled in C15/LibPercent.v. *)
 From Wz Require Import lib.Bytes lib.Utf8 C15.LibPercent C15.Gen.
+From Wz Require Export C15.DispatchBase C15.GenDispatch.
 Open Scope N_scope.
 
 Definition SL : N := dispatch_sep.
@@ -80,37 +81,8 @@ Definition current_uri (scheme host : str) (root_path path : option str) (qs : o
   end.
 
 (* ------------------------------------------------------------------ DispatcherMiddleware *)
-Fixpoint lookup (k : str) (m : list (str * N)) : option N :=
-  match m with
-  | [] => None
-  | (k', v) :: r => if list_eqb k k' then Some v else lookup k r
-  end.
-
-Inductive dres :=
-| DOk (app : N) (script path_info : str)
-| DOutOfFuel          (* the model's loop bound was too small (proved unreachable) *)
-| DUnpackError.       (* rsplit returned one field (proved unreachable) *)
-
-(* `while "/" in script:` ... `else:` ; mounts maps a prefix to an application id, default is
-   self.app *)
-Fixpoint dispatch_loop (fuel : nat) (mounts : list (str * N)) (default : N)
-         (script path_info : str) : dres :=
-  match fuel with
-  | O => DOutOfFuel
-  | S f =>
-      if mem SL script then
-        match lookup script mounts with
-        | Some a => DOk a script path_info
-        | None =>
-            match rsplit1 SL script with
-            | Some (script', last_item) =>
-                dispatch_loop f mounts default script' (SL :: last_item ++ path_info)
-            | None => DUnpackError
-            end
-        end
-      else DOk (match lookup script mounts with Some a => a | None => default end) script path_info
-  end.
-
+(* lookup, dres: C15/DispatchBase.v; dispatch_loop: C15/GenDispatch.v, generated from the source of
+   DispatcherMiddleware.__call__ on every run *)
 Definition dispatch (mounts : list (str * N)) (default : N) (path : str) : dres :=
   dispatch_loop (S (length path)) mounts default path [].
 
